@@ -112,6 +112,14 @@ func (x *Exec) tryMergeDiamond(s *State, fr *Frame, c *Term, tb, fb *ssa.BasicBl
 		s.dead = true
 		return true
 	}
+	// calls made inside a merged branch are not the "most recent call on this path" any more (lasterr)
+	for _, b := range []*State{s1, s2} {
+		for name, rs := range b.lastCall {
+			if old, had := s.lastCall[name]; !had || len(old) != len(rs) || (len(rs) > 0 && old[len(old)-1].Term != rs[len(rs)-1].Term) {
+				delete(s.lastCall, name)
+			}
+		}
+	}
 	// merge into s
 	for cell, v1 := range s1.cellVal {
 		v2, has := s2.cellVal[cell]
